@@ -60,10 +60,51 @@ func (ex *Exec) doCall(fr *Frame, common *ssa.CallCommon, pos token.Pos, site ss
 	if n, ok := common.Value.Type().(*types.Named); ok {
 		key = "callback " + typeKey(n)
 	} else {
-		key = "callback " + fnKeyOf(fr.fn) + "." + ex.operandName(fr.fn, common.Value)
+		if fk, ok := fieldKeyOf(common.Value); ok {
+			// a function value stored in a struct field: keyed by the field, wherever it is called
+			key = "callback " + fk
+		} else {
+			key = "callback " + fnKeyOf(fr.fn) + "." + ex.operandName(fr.fn, common.Value)
+		}
 	}
 	args = append([]Value{fv}, args...)
 	ex.callByKey(fr, key, nil, args, nil, resT, pos, site, st, k)
+}
+
+// fieldKeyOf names a value loaded from a struct field (optionally an element of a slice field)
+// by the field: "wire.Server.Statements", "wire.Server.typeExtensions[]".
+func fieldKeyOf(v ssa.Value) (string, bool) {
+	suffix := ""
+	for depth := 0; depth < 6; depth++ {
+		switch x := v.(type) {
+		case *ssa.UnOp:
+			if x.Op != token.MUL {
+				return "", false
+			}
+			v = x.X
+		case *ssa.IndexAddr:
+			suffix = "[]" + suffix
+			v = x.X
+		case *ssa.Phi:
+			// range loops over a slice field load the slice before the loop
+			return "", false
+		case *ssa.FieldAddr:
+			st, ok := deref(x.X.Type()).Underlying().(*types.Struct)
+			if !ok {
+				return "", false
+			}
+			return typeKey(deref(x.X.Type())) + "." + st.Field(x.Field).Name() + suffix, true
+		case *ssa.Field:
+			st, ok := x.X.Type().Underlying().(*types.Struct)
+			if !ok {
+				return "", false
+			}
+			return typeKey(x.X.Type()) + "." + st.Field(x.Field).Name() + suffix, true
+		default:
+			return "", false
+		}
+	}
+	return "", false
 }
 
 func (ex *Exec) safetyCall(fr *Frame, st *State, site ssa.Instruction, role string, operand ssa.Value, goal *Term) {
@@ -693,7 +734,12 @@ func (ex *Exec) doDeferred(fr *Frame, d *deferRec, st *State, k func(*State)) {
 	if n, ok := common.Value.Type().(*types.Named); ok {
 		key = "callback " + typeKey(n)
 	} else {
-		key = "callback " + fnKeyOf(fr.fn) + "." + ex.operandName(fr.fn, common.Value)
+		if fk, ok := fieldKeyOf(common.Value); ok {
+			// a function value stored in a struct field: keyed by the field, wherever it is called
+			key = "callback " + fk
+		} else {
+			key = "callback " + fnKeyOf(fr.fn) + "." + ex.operandName(fr.fn, common.Value)
+		}
 	}
 	args := append([]Value{d.fnval}, d.args...)
 	ex.callByKey(fr, key, nil, args, nil, resT, d.pos, nil, st, cont)
@@ -825,7 +871,7 @@ func (ex *Exec) checkCallsite(fr *Frame, key string, callee *ssa.Function, args 
 			continue // names a local that is not in scope at this call site
 		}
 		ex.clauseHit["callsite@"+key+"#"+cl.Label] = true
-		ex.oblige(st, "callsite@"+key, cl.Label, cl.Props, g, site.Pos(), fnKeyOf(fr.fn))
+		ex.oblige(st, "callsite@"+key, cl.Label, cl.Props, g, site.Pos(), ex.fnKey)
 		st.assume(g)
 	}
 }
@@ -876,6 +922,24 @@ func (ex *Exec) localEnv(fr *Frame, st *State, at ssa.Instruction) *Env {
 		}
 		if v, ok := ex.refValue(fr, st, best, nil); ok {
 			env.vars[name] = v
+		}
+	}
+	// inside a loop body: $n = iterations completed before the current one
+	if at.Block() != nil {
+		li := loopsOf(fr.fn)
+		var inner *ssa.BasicBlock
+		for h, body := range li.body {
+			if body[at.Block()] && (inner == nil || len(body) < len(li.body[inner])) {
+				inner = h
+			}
+		}
+		if inner != nil {
+			if nv, ok := iterCount(inner, func(p *ssa.Phi) (Value, bool) { v, ok := fr.vals[p]; return v, ok }); ok {
+				env.vars["$n"] = nv
+				if _, has := env.vars["$index"]; !has {
+					env.vars["$index"] = Value{T: tInt, L: []*Term{Sub(nv.L[0], Int(1))}}
+				}
+			}
 		}
 	}
 	ex.applyAliases(env, fr.fn)
